@@ -100,27 +100,35 @@ Definition title_ok (top : bool) (t : string) : bool :=
   | Raise _ => false
   end.
 
-(* files written next to the pages of the children [cs] of a section *)
-Definition files_beside (top : bool) (cs : list report) : list string :=
-  (if top then ["index.rst"%string; "conf.py"%string] else [])
+(* files written next to the pages of the children [cs] of the section with
+   key [k]; [figs] = names of the plot files *)
+Definition files_beside (figs : list string) (k : key) (cs : list report) : list string :=
+  (match k with
+   | [] => ["index.rst"%string; "conf.py"%string]
+   | [d] => if String.eqb d ".static" then ["valjean.css"%string]
+            else if String.eqb d "figures" then figs else []
+   | _ => []
+   end)
   ++ map (fun c => (title_of c ++ ".rst")%string) cs.
 
 Definition has_children (r : report) : bool :=
   match children_of r with [] => false | _ => true end.
 
 (* the directory of the sub-sections of [c] must not be one of those files *)
-Definition dir_ok (top : bool) (cs : list report) (c : report) : bool :=
-  negb (has_children c && existsb (String.eqb (title_of c)) (files_beside top cs)).
+Definition dir_ok (figs : list string) (k : key) (cs : list report) (c : report) : bool :=
+  negb (has_children c && existsb (String.eqb (title_of c)) (files_beside figs k cs)).
 
-(* FormattedRst.check_tree *)
-Fixpoint titles_ok (top : bool) (r : report) : bool :=
+Definition is_top (k : key) : bool := match k with [] => true | _ => false end.
+
+(* FormattedRst.check_tree, at the section with key [k] *)
+Fixpoint titles_ok (figs : list string) (k : key) (r : report) : bool :=
   match r with
   | Node _ _ cs =>
       nodupb (map title_of cs)
-      && forallb (fun c => title_ok top (title_of c) && dir_ok top cs c && titles_ok false c) cs
+      && forallb (fun c => title_ok (is_top k) (title_of c) && dir_ok figs k cs c
+                           && titles_ok figs (k ++ [title_of c]) c) cs
   end.
 
-Definition writable (r : report) : bool := levels_ok 0 r && titles_ok true r.
 
 (* ---- write ---- *)
 Inductive wr :=
@@ -147,6 +155,9 @@ Fixpoint dedupe (l : list string) : list string :=
 Definition pages (r : report) : list page := map page_of (secs [] r).
 
 Definition all_images (r : report) : list string := flat_map p_images (pages r).
+
+Definition writable (r : report) : bool :=
+  levels_ok 0 r && titles_ok (map fig_name (dedupe (all_images r))) [] r.
 
 (* the trace of file writes and the exception that ended it, if any
    (Some 1 = ValueError) *)
